@@ -18,7 +18,7 @@ function fresh (P, p) { return p + (P.nextName++) }
 // non-operation contexts an instrumented expression can sit in
 const WRAPS = ['array', 'object', 'argument', 'new', 'typeof', 'logical', 'comma', 'computed-key', 'spread', 'tagged', 'iife', 'nested-call']
 
-const FUNC_KINDS = ['decl', 'decl', 'arrowBlock', 'arrowExpr', 'gen', 'async', 'asyncGen', 'class', 'decl-default', 'arrow-default']
+const FUNC_KINDS = ['decl', 'decl', 'arrowBlock', 'arrowExpr', 'gen', 'async', 'asyncGen', 'class', 'objlit', 'decl-default', 'arrow-default']
 
 function genFunc (rng, P, depth, forced) {
   let kind = forced || rng.pick(FUNC_KINDS)
@@ -32,6 +32,18 @@ function genFunc (rng, P, depth, forced) {
   }
   if (kind === 'decl-default' || kind === 'arrow-default') {
     f.def = genOpExpr(rng, ctx, 1, kind === 'decl-default' ? 'param-default:function' : 'param-default:arrow')
+  }
+  if (kind === 'objlit') {
+    f.name = fresh(P, 'o')
+    f.members = []
+    const n = rng.range(1, 3)
+    for (let i = 0; i < n; i++) {
+      const mk = rng.pick(['method', 'getter', 'setter', 'genmethod'])
+      const m = { kind: mk, name: fresh(P, 'm'), body: [], isGen: mk === 'genmethod' }
+      m.body = genBlock(rng, { P, f: m, depth: depth + 1, loop: 0 }, 1, 'object-' + mk)
+      f.members.push(m)
+    }
+    return f
   }
   if (kind === 'class') {
     f.members = []
@@ -75,7 +87,7 @@ function genStmt (rng, ctx, nest, label) {
     case 6: return { t: 'while', n: rng.range(1, 2), v: fresh(P, 'w'), c: genOpExpr(rng, ctx, 1, 'loop-head'), body: genBlock(rng, { ...ctx, loop: ctx.loop + 1 }, nest - 1, 'loop-body') }
     case 7: return { t: 'switch', c: genOpExpr(rng, ctx, 1, 'switch-discriminant'), cases: [genBlock(rng, ctx, nest - 1, 'switch-case'), genBlock(rng, ctx, nest - 1, 'switch-case')] }
     case 8: return { t: 'try', body: genBlock(rng, ctx, nest - 1, 'try'), handler: genBlock(rng, ctx, nest - 1, 'catch'), finalizer: rng.chance(1, 2) ? genBlock(rng, ctx, nest - 1, 'finally') : null }
-    case 9: return { t: 'nested', f: genFunc(rng, P, ctx.depth + 1, rng.pick(['decl', 'arrowBlock', 'arrowExpr', 'gen', 'async', 'class', P.known ? 'decl-default' : 'arrow-default'])) }
+    case 9: return { t: 'nested', f: genFunc(rng, P, ctx.depth + 1, rng.pick(['decl', 'arrowBlock', 'arrowExpr', 'gen', 'async', 'class', 'objlit', P.known ? 'decl-default' : 'arrow-default'])) }
     case 10: return { t: 'block', labelled: rng.chance(1, 3), body: genBlock(rng, ctx, nest - 1, label) }
     case 11: return { t: 'addassign', target: rng.pick(['local', 'member']), e: genOpExpr(rng, ctx, 1, label, true), id: P.nextOp++ }
     case 13: return { t: 'dowhile', n: rng.range(0, 1), v: fresh(P, 'd'), c: genOpExpr(rng, ctx, 1, 'loop-head'), body: genBlock(rng, { ...ctx, loop: ctx.loop + 1 }, nest - 1, 'loop-body') }
@@ -333,6 +345,20 @@ function render (P) {
         emit(`function ${f.name}(act, p = ${ex(f.def, 'act')}) {`); ind++; prelude('act', f); block(f.body, 'act', f); ind--; emit('}')
         emit(`$.reg(${JSON.stringify(f.name)}, ${f.name}, 'fn');`)
         return
+      case 'objlit': {
+        emit(`const ${f.name} = {`); ind++
+        for (const m of f.members) {
+          switch (m.kind) {
+            case 'getter': emit(`get ${m.name}() {`); ind++; emit('const act = $.a();'); prelude('act', m); block(m.body, 'act', m); ind--; emit('},'); break
+            case 'setter': emit(`set ${m.name}(value) {`); ind++; emit('const act = $.a();'); prelude('act', m); block(m.body, 'act', { ...m, noReturn: true }); ind--; emit('},'); break
+            case 'genmethod': emit(`*${m.name}(act) {`); ind++; prelude('act', m); block(m.body, 'act', m); ind--; emit('},'); break
+            default: emit(`${m.name}(act) {`); ind++; prelude('act', m); block(m.body, 'act', m); ind--; emit('},')
+          }
+        }
+        ind--; emit('};')
+        emit(`$.regObj(${JSON.stringify(f.name)}, ${f.name}, ${JSON.stringify(f.members.map(m => ({ kind: m.kind, name: m.name })))});`)
+        return
+      }
       case 'class': {
         emit(`class ${f.name} {`); ind++
         for (const m of f.members) {
